@@ -894,7 +894,7 @@ def _pad_then_rechunk(
         # merge any lonely chunks on either end created by padding
         rechunked_padded_args = _rechunk_to_merge_in_boundary_chunks(
             padded_args,
-            args,
+            [_maybe_unpack_vector_component(a) for a in args],
             boundary_width_real_axes,
             grid,
         )
@@ -935,7 +935,8 @@ def _map_func_over_core_dims(
     # Need to transpose the numpy axis arguments to leave core dims at end
     # else they won't match up inside mapped_func after xr.apply_ufunc does its transposition
     transposed_original_args = [
-        arg.transpose(..., *in_core_dims[i]) for i, arg in enumerate(original_args)
+        _maybe_unpack_vector_component(arg).transpose(..., *in_core_dims[i])
+        for i, arg in enumerate(original_args)
     ]
 
     boundary_width_per_numpy_axis = {
